@@ -1,6 +1,7 @@
 import GoCrypt.Gen.Facts
 import GoCrypt.Proofs.Base64
 import GoCrypt.Props.C16Decode
+import GoCrypt.Props.B64IR
 
 /-!
 # C16 — the little-endian base64 of crypt(3)
@@ -288,5 +289,19 @@ theorem exported_encodings :
 #print axioms GoCrypt.C16Decode.malformed_rejected
 #print axioms GoCrypt.C16Decode.nothing_after_padding
 #print axioms GoCrypt.C16Decode.incomplete_rejected
+
+-- the tie of the loops (Props/B64IR.lean): Encode, EncodeToString, EncodedLen, DecodeString, Decode, decodeQuantum, assemble32/64 and
+-- DecodedLen, bodies regenerated from hash/base64le/base64le.go on every run, interpreted over a heap of byte buffers, equal the hand model
+#print axioms GoCrypt.B64IR.encodedLen_ir_eq_model
+#print axioms GoCrypt.B64IR.decodedLen_ir_eq_model
+#print axioms GoCrypt.B64IR.assemble32_ir_eq_model
+#print axioms GoCrypt.B64IR.assemble64_ir_eq_model
+#print axioms GoCrypt.B64IR.encode_ir_eq_model
+#print axioms GoCrypt.B64IR.encodeToString_ir_eq_model
+#print axioms GoCrypt.B64IR.decodeQuantum_ir_eq_model
+#print axioms GoCrypt.B64IR.decode_ir_eq_decodeLoop
+#print axioms GoCrypt.B64IR.decode_ir_eq_model
+#print axioms GoCrypt.B64IR.decodeString_ir_eq_model
+#print axioms GoCrypt.B64IR.decodeString_ir_bytes
 
 end GoCrypt.C16
